@@ -33,6 +33,13 @@ def parseIntC (cs : List Char) : Option (Int × List Char) :=
     let v : Nat := ds.foldl (fun acc c => acc * 10 + (c.toNat - 48)) 0
     some ((if neg then -(v : Int) else v), rest)
 
+/-- the variables of a `for`: `v` or `k:v` -/
+def parseVars (cs : List Char) : Option String × String × List Char :=
+  let (a, r1) := takeWhileC isNameC cs
+  match r1 with
+  | ':' :: r2 => let (b, r3) := takeWhileC isNameC r2; (some (String.ofList a), String.ofList b, r3)
+  | _ => (none, String.ofList a, r1)
+
 mutual
   partial def parseE (cs : List Char) : Option (E × List Char) :=
     match cs with
@@ -76,12 +83,33 @@ mutual
         | _ => none
       | _ => none
     | 'R' :: r =>
-      let (v, r1) := takeWhileC isNameC r
-      match r1 with
-      | '(' :: r2 => match parseList r2 with
-        | some ([c, b], r') => some (.forT (String.ofList v) c b none, r')
-        | some ([c, b, f], r') => some (.forT (String.ofList v) c b (some f), r')
+      match parseVars r with
+      | (k, v, '(' :: r2) => match parseList r2 with
+        | some ([c, b], r') => some (.forE k v c none b none false, r')
+        | some ([c, b, f], r') => some (.forE k v c none b (some f) false, r')
         | _ => none
+      | _ => none
+    | 'Q' :: r =>
+      match parseVars r with
+      | (k, v, '(' :: r2) => match parseList r2 with
+        | some ([c, ke, b], r') => some (.forE k v c (some ke) b none false, r')
+        | some ([c, ke, b, f], r') => some (.forE k v c (some ke) b (some f) false, r')
+        | _ => none
+      | _ => none
+    | 'G' :: r =>
+      match parseVars r with
+      | (k, v, '(' :: r2) => match parseList r2 with
+        | some ([c, ke, b], r') => some (.forE k v c (some ke) b none true, r')
+        | some ([c, ke, b, f], r') => some (.forE k v c (some ke) b (some f) true, r')
+        | _ => none
+      | _ => none
+    | '@' :: r => some (.anon, r)
+    | 'X' :: '(' :: r => match parseList r with
+      | some ([src, each], r') => some (.splat src each, r')
+      | _ => none
+    | 'W' :: '(' :: r => (parseList r).map fun (es, r') => (E.tmplS es, r')
+    | 'J' :: '(' :: r => match parseE r with
+      | some (e, ')' :: r') => some (.join e, r')
       | _ => none
     | 'O' :: '(' :: r => (parseItems r).map fun (its, r') => (E.obj its, r')
     | _ => none
@@ -114,6 +142,8 @@ mutual
     | 'z' :: r => some (.null, r)
     | 's' :: r => let (h, r') := takeWhileC isHexC r; (hexStr h).map fun s => (V.str s, r')
     | 'l' :: '(' :: r => (parseVs r).map fun (vs, r') => (V.tuple vs, r')
+    | 'L' :: '(' :: r => (parseVs r).map fun (vs, r') => (V.listv vs, r')
+    | 'm' :: '(' :: r => (parseVItems r).map fun (its, r') => (V.mapv (its.foldl (fun acc (k, v) => insertItem k v acc) []), r')
     | 'o' :: '(' :: r => (parseVItems r).map fun (its, r') => (V.obj (its.foldl (fun acc (k, v) => insertItem k v acc) []), r')
     | _ => none
   partial def parseVs (cs : List Char) : Option (List V × List Char) :=
@@ -142,8 +172,8 @@ partial def showV : V → String
   | .bool false => "f"
   | .null => "z"
   | .str s => "s" ++ (if s.isEmpty then "-" else toHex s.toUTF8.toList)
-  | .tuple vs => "l(" ++ ",".intercalate (vs.map showV) ++ ")"
-  | .obj its => "o(" ++ ",".intercalate (its.map fun (k, v) => toHex k.toUTF8.toList ++ "=" ++ showV v) ++ ")"
+  | .tuple vs | .listv vs => "l(" ++ ",".intercalate (vs.map showV) ++ ")"      -- the harness prints sequences and mappings alike
+  | .obj its | .mapv its => "o(" ++ ",".intercalate (its.map fun (k, v) => toHex k.toUTF8.toList ++ "=" ++ showV v) ++ ")"
 
 partial def showE : E → String
   | .num n => s!"N{n}"
@@ -162,8 +192,18 @@ partial def showE : E → String
   | .obj its => "O(" ++ ",".intercalate (its.map fun (k, e) => (if k.isEmpty then "-" else toHex k.toUTF8.toList) ++ "=" ++ showE e) ++ ")"
   | .index c k => "I(" ++ showE c ++ "," ++ showE k ++ ")"
   | .attr c n => "A(" ++ showE c ++ "," ++ n ++ ")"
-  | .forT v c b none => "R" ++ v ++ "(" ++ showE c ++ "," ++ showE b ++ ")"
-  | .forT v c b (some f) => "R" ++ v ++ "(" ++ showE c ++ "," ++ showE b ++ "," ++ showE f ++ ")"
+  | .forE k v c ke b f g =>
+    (match ke with | none => "R" | some _ => if g then "G" else "Q") ++ (match k with | some kn => kn ++ ":" | none => "") ++ v ++ "(" ++ showE c
+      ++ (match ke with | some x => "," ++ showE x | none => "") ++ "," ++ showE b ++ (match f with | some x => "," ++ showE x | none => "") ++ ")"
+  | .anon => "@"
+  | .splat src each => "X(" ++ showE src ++ "," ++ showE each ++ ")"
+  | .join e => "J(" ++ showE e ++ ")"
+  | .tmplS ps =>
+    match normTmpl none ps with
+    | [.str s] => showE (.str s)
+    | [] => "S-"
+    | [p] => "W(" ++ showE p ++ ")"
+    | ps' => "P(" ++ ",".intercalate (ps'.map showE) ++ ")"
   | .strip _ _ e => showE e
   | .tmpl ps =>
     -- as the parser builds it: markers applied, a template of one literal is that literal
